@@ -232,6 +232,22 @@ def r3(R):
             row_iter = any(c.name() == "next" and c.args and "hash::map::Iter<'_, alloc::string::String, alloc::string::String>" in x.local_ty(F.op_place(c.args[0])["l"]) for c in calls_in if F.op_place(c.args[0]))
             lookups = [c for c in calls_in if c.name() in ("get", "contains_key") and c.args and ROW in x.local_ty(F.op_place(c.args[0])["l"]) ]
             cmps = [c for c in calls_in if c.name() in ("ne", "eq")]
+            # a comparison delegated to a helper of this crate (`same_term(a, b)`): it has to be the identity of the two terms
+            for c in calls_in:
+                hb = prog.bodies.get(c.key)
+                if hb is None or hb.crate != "kolibrie" or hb.is_closure or hb.local_ty(0) != "bool" or hb.nargs != 2:
+                    continue
+                if not all("str" in hb.local_ty(i) or "String" in hb.local_ty(i) for i in (1, 2)):
+                    continue
+                inner = sorted({cc.name() for y in prog.family(hb.key) for cc in y.calls()})
+                other = [n for n in inner if n not in ("eq", "ne", "deref", "as_str", "borrow", "as_ref", "as_bytes")]
+                ident = ("eq" in inner or "ne" in inner) and not other
+                R.ob("C11-R3", "identity:" + hb.name, "the helper `%s` that decides whether two values of a shared variable agree is the identity of terms "
+                     "(it also calls: %s)" % (hb.name, other), ident, where=hb.where(),
+                     detail=None if ident else "rows that bind the shared variable to different terms (`21` and `21.0`, two integers beyond 2^53) are joined and "
+                     "the emitted row carries only one of them: restricted to the other block's variables it is not an answer over what that window reported")
+                if "eq" in inner or "ne" in inner:
+                    cmps.append(c)
             if not (row_iter and lookups and cmps):
                 continue
             if pc.bb in body and h == min((hh for hh, bd in x.loops() if pc.bb in bd), key=lambda v: 0, default=None):
